@@ -24,6 +24,8 @@ def term(op, kv):
         return f"gc_prestate (mkPrefilterState {int(kv['skips'])}%N {int(kv['skipped'])}%N) {ops} []"
     if op in ("twnew", "twrnew") and 0 < len(kv.get("x", "")) <= 600 and not any(k in kv for k in ("an", "fln")):
         return f"gc_{op} {nlist(kv['x'])}"
+    if op in ("rknew", "rkrnew") and len(kv.get("x", "")) <= 1300:
+        return f"gc_{op} {nlist(kv.get('x', ''))}"
     return None
 
 def expect(op, res):
@@ -38,6 +40,9 @@ def expect(op, res):
     if op == "prestate":
         m = re.fullmatch(r"([tf]*)\|(\d+),(\d+)", res)
         return [1] + [1 if c == "t" else 0 for c in m.group(1)] + [9, int(m.group(2)), int(m.group(3))] if m else None
+    if op in ("rknew", "rkrnew"):
+        m = re.search(r"hash: Hash\((\d+)\), hash_2pow: (\d+)", res)
+        return [1, int(m.group(1)), int(m.group(2))] if m else None
     if op in ("twnew", "twrnew"):
         m = re.search(r"ApproximateByteSet\((\d+)\), critical_pos: (\d+), shift: (Small|Large) \{ (?:period|shift): (\d+) \}", res)
         return [1, int(m.group(1)), int(m.group(2)), 0 if m.group(3) == "Small" else 1, int(m.group(4))] if m else None
@@ -53,7 +58,7 @@ def crosscheck(pid, cases, impl_rows, max_cases=120, timeout=600):
         res = vlib.canon_res(impl_rows[i][0])
         if op in ("pair", "pairidx", "twnew", "twrnew") and res.startswith("Panic"):
             pass
-        e = expect(op, impl_rows[i][0] if op in ("twnew", "twrnew", "prestate") else res)
+        e = expect(op, impl_rows[i][0] if op in ("twnew", "twrnew", "prestate", "rknew", "rkrnew") else res)
         if e is None:
             continue
         picked.append((i, t, e))
